@@ -78,6 +78,7 @@ add("wn_after", ["C04", "C11", "C13"], "q", progs=[P("L", wnl(v=1, dl=1), "U"), 
 add("wn_nodl", ["C04", "C11"], "q", progs=[P("L", wnl(v=1), "U"), P("L", "set11", "U", "B")], NV=1)
 # contention on the cv's spinlock while registering: a signaller that does not hold the mutex / two reader-mode waiters
 add("wn_spin", ["C04", "C11"], "q", progs=[P("L", wnl(v=1, dl=1), "U"), P("S")], NV=1, MaxNow=1)
+add("wn_spin2", ["C04", "C11"], "q", progs=[P("L", cvw(dl=1), "U"), P("L", op("waitn", dl=1), "U")], NV=1, MaxNow=1)
 add("cv_2rd", ["C04", "C01"], "q", progs=[P("R", cvw(dl=1), "RU"), P("R", cvw(dl=1), "RU")], NV=1, MaxNow=1)
 # nsync_cv_signal wakes a reader-mode waiter and, with it, the nsync_wait_n waiter queued behind it, whose deadline can end the call at any point
 add("wn_rd_g", ["C13", "C04", "C11"], "q", progs=[P("R", cvw(), "RU"), P("G1", "L", op("waitn", dl=1), "U"), P("G2", "S")], NV=1, MaxNow=1)
